@@ -288,6 +288,9 @@ func (r *rewriter) run() bool {
 	if r.cfg.conc || r.cfg.mapr {
 		r.rewriteStmts()
 	}
+	if r.cfg.conc {
+		r.rewriteMem()
+	}
 	if !r.changed {
 		return false
 	}
@@ -789,6 +792,197 @@ func (r *rewriter) mentionsGlobal(st ast.Stmt) string {
 		})
 	}
 	return found
+}
+
+// ---- memory accesses (happens-before race detection, see rt/vrt/hb.go) ----
+
+// rewriteMem routes reads and writes of struct fields and package-level variables of the repository
+// through vrt.R / vrt.W:   x.f  ->  (*vrt.R(&x.f, "pkg.T.f@file.go:12")),   x.f = v  ->  (*vrt.W(&x.f, ...)) = v.
+// Only addressable operands are rewritten (everything reached through a pointer is); fields of
+// synchronisation types, operands of & and error variables are left alone. Decisions are taken in a first
+// pass over the (already rewritten) tree, using the type information of the original nodes, and applied
+// bottom-up in a second pass.
+func (r *rewriter) rewriteMem() {
+	type dec struct {
+		write bool
+		site  string
+	}
+	decs := map[ast.Expr]dec{}
+	isSyncType := func(t types.Type) bool {
+		if p, ok := t.(*types.Pointer); ok {
+			t = p.Elem()
+		}
+		n, ok := t.(*types.Named)
+		if !ok || n.Obj().Pkg() == nil {
+			return false
+		}
+		switch n.Obj().Pkg().Path() {
+		case "sync", "sync/atomic", vsyncPath:
+			return true
+		}
+		return false
+	}
+	repoVar := func(v *types.Var) bool {
+		return v != nil && v.Pkg() != nil && strings.HasPrefix(v.Pkg().Path(), mod) && !strings.Contains(v.Pkg().Path(), "/verif/")
+	}
+	var stack []ast.Node
+	decide := func(n ast.Expr, name string) {
+		if len(stack) == 0 {
+			return
+		}
+		p := stack[len(stack)-1]
+		var g ast.Node
+		if len(stack) > 1 {
+			g = stack[len(stack)-2]
+		}
+		write := false
+		inLhs := func(as *ast.AssignStmt, e ast.Expr) bool {
+			if as.Tok == token.DEFINE {
+				return false
+			}
+			for _, l := range as.Lhs {
+				if l == e {
+					return true
+				}
+			}
+			return false
+		}
+		switch pp := p.(type) {
+		case *ast.UnaryExpr:
+			if pp.Op == token.AND {
+				return
+			}
+		case *ast.AssignStmt:
+			if pp.Tok == token.DEFINE {
+				for _, l := range pp.Lhs {
+					if l == n {
+						return
+					}
+				}
+			}
+			write = inLhs(pp, n)
+		case *ast.IncDecStmt:
+			write = true
+		case *ast.RangeStmt:
+			if pp.Key == n || pp.Value == n {
+				return
+			}
+		case *ast.ValueSpec:
+			for _, nm := range pp.Names {
+				if ast.Expr(nm) == n {
+					return
+				}
+			}
+		case *ast.SelectorExpr:
+			if pp.Sel == n {
+				return
+			}
+		case *ast.KeyValueExpr:
+			if pp.Key == n {
+				if _, isComp := g.(*ast.CompositeLit); isComp {
+					if _, isID := n.(*ast.Ident); isID {
+						return // struct literal key
+					}
+				}
+			}
+		case *ast.IndexExpr:
+			if pp.X == n && r.isMap(n) {
+				switch gg := g.(type) {
+				case *ast.AssignStmt:
+					write = inLhs(gg, pp)
+				case *ast.IncDecStmt:
+					write = true
+				}
+			}
+		case *ast.CallExpr:
+			if id, ok := pp.Fun.(*ast.Ident); ok && id.Name == "delete" && len(pp.Args) > 0 && pp.Args[0] == n {
+				if _, isBuiltin := r.info().Uses[id].(*types.Builtin); isBuiltin {
+					write = true
+				}
+			}
+		}
+		decs[n] = dec{write: write, site: name + "@" + r.pos(n)}
+	}
+	visit := func(n ast.Node) bool {
+		if n == nil {
+			stack = stack[:len(stack)-1]
+			return true
+		}
+		switch x := n.(type) {
+		case *ast.SelectorExpr:
+			if sel := r.info().Selections[x]; sel != nil {
+				if sel.Kind() == types.FieldVal {
+					fv, _ := sel.Obj().(*types.Var)
+					tv, haveTV := r.info().Types[x.X]
+					addressable := sel.Indirect() || (haveTV && tv.Addressable())
+					if repoVar(fv) && !isSyncType(fv.Type()) && addressable && fv.Name() != "_" {
+						owner := "?"
+						rt := sel.Recv()
+						if pt, ok := rt.(*types.Pointer); ok {
+							rt = pt.Elem()
+						}
+						if nt, ok := rt.(*types.Named); ok {
+							owner = nt.Obj().Name()
+						}
+						decide(x, fv.Pkg().Name()+"."+owner+"."+fv.Name())
+					}
+				}
+			} else if id, ok := x.X.(*ast.Ident); ok {
+				if _, isPkg := r.info().Uses[id].(*types.PkgName); isPkg {
+					if v, ok := r.info().Uses[x.Sel].(*types.Var); ok && repoVar(v) && !v.IsField() && v.Parent() == v.Pkg().Scope() && r.plainGlobal(v) && !isSyncType(v.Type()) {
+						decide(x, v.Pkg().Name()+"."+v.Name())
+					}
+				}
+			}
+		case *ast.Ident:
+			if v, ok := r.info().Uses[x].(*types.Var); ok && repoVar(v) && !v.IsField() && v.Parent() == v.Pkg().Scope() && r.plainGlobal(v) && !isSyncType(v.Type()) {
+				decide(x, v.Pkg().Name()+"."+v.Name())
+			}
+		}
+		stack = append(stack, n)
+		return true
+	}
+	for _, d := range r.file.Decls {
+		if fd, ok := d.(*ast.FuncDecl); ok && fd.Body != nil {
+			stack = stack[:0]
+			stack = append(stack, fd)
+			ast.Inspect(fd.Body, visit)
+		}
+	}
+	if len(decs) == 0 {
+		return
+	}
+	astutil.Apply(r.file, nil, func(c *astutil.Cursor) bool {
+		e, ok := c.Node().(ast.Expr)
+		if !ok {
+			return true
+		}
+		d, ok := decs[e]
+		if !ok {
+			return true
+		}
+		delete(decs, e)
+		fn := "R"
+		if d.write {
+			fn = "W"
+		}
+		c.Replace(&ast.ParenExpr{X: &ast.StarExpr{X: r.vrt(fn, &ast.UnaryExpr{Op: token.AND, X: e}, strlit(d.site))}})
+		r.changed = true
+		r.stats["mem-"+strings.ToLower(fn)]++
+		return true
+	})
+}
+
+// plainGlobal: package-level variables that take part in race detection (error values and the like are
+// initialised once and only read).
+func (r *rewriter) plainGlobal(v *types.Var) bool {
+	if strings.HasPrefix(v.Name(), "Err") || strings.HasPrefix(v.Name(), "err") {
+		return false
+	}
+	if types.Identical(v.Type(), types.Universe.Lookup("error").Type()) {
+		return false
+	}
+	return true
 }
 
 func (r *rewriter) goStmt(g *ast.GoStmt) ast.Stmt {
